@@ -139,6 +139,8 @@ def eq(a, b):
 
 
 def str_eq(a, b):
+    if type(a).__name__ == "_Missing" or type(b).__name__ == "_Missing":
+        return False
     if symbolic(a, b):
         return (a if V.is_z3(a) else z3.StringVal(a)) == (b if V.is_z3(b) else z3.StringVal(b))
     return a == b
